@@ -187,7 +187,9 @@ func (g *Gen) Unit(u string) []*ref.AEvent {
 		ddl := []string{"CREATE TABLE t%d (a int)", "ALTER TABLE item ADD COLUMN c%d int", "DROP TABLE IF EXISTS t%d", "TRUNCATE TABLE t%d", "RENAME TABLE a%d TO b", "create index i%d on item(id)", "Alter table item drop column c%d",
 			// stored programs whose bodies hold the words the grouping looks for
 			"CREATE PROCEDURE p%d() BEGIN START TRANSACTION; UPDATE item SET qty=1; COMMIT; END", "CREATE DEFINER=`root`@`%%` TRIGGER g%d AFTER INSERT ON item FOR EACH ROW BEGIN INSERT INTO audit VALUES (1); END",
-			"CREATE EVENT e%d ON SCHEDULE EVERY 1 DAY DO BEGIN DELETE FROM item; ROLLBACK; END", "ALTER TABLE item COMMENT 'begin; commit; xa start %d'", "DROP PROCEDURE IF EXISTS `commit%d`"}
+			"CREATE EVENT e%d ON SCHEDULE EVERY 1 DAY DO BEGIN DELETE FROM item; ROLLBACK; END", "ALTER TABLE item COMMENT 'begin; commit; xa start %d'", "DROP PROCEDURE IF EXISTS `commit%d`",
+			// a latin1 session: the text is not valid UTF-8
+			"ALTER TABLE notes%d COMMENT 'caf\xe9 cr\xe8me'"}
 		return []*ref.AEvent{ref.Q(ts, "shop", fmt.Sprintf(ddl[g.n%len(ddl)], k), cs)}
 	case USet:
 		return []*ref.AEvent{ref.Q(ts, "", fmt.Sprintf("SET PASSWORD FOR 'u%d'@'%%'='x'", k))}
